@@ -29,9 +29,19 @@ def conn_menu(w, n, total):
 KINDS = ["mod", "ext", "prim", "nested"]
 
 
+BUNDLE_FORMS = [("b", "bb"), ("anon", [("x", ("sig", "s")), ("y", ("sig", "v"))]), ("bref", "b2", ["sub"]),
+                ("anon", [("x", ("idx", ("sig", "t"), 3)), ("y", ("bref", "bb", ["y"]))]), ("dict", [("x", ("sig", "s")), ("y", ("rng", ("sig", "t"), 0, 2, None))]),
+                ("b", "pbb"), ("pref", "solob", "bp")]
+
+
 def items(tier):
     out = []
     k = 0
+    for n in (1, 2, 3):
+        for ib in range(len(BUNDLE_FORMS)):
+            for cw in range(3):
+                out.append(("bundle", n, 1, ib, cw, k))
+                k += 1
     for kind in KINDS:
         for n in (1, 2, 3):
             for w in ((1, 2) if kind != "prim" else (1,)):
@@ -42,7 +52,34 @@ def items(tier):
     return out
 
 
+def design_bundle(desc):
+    """An array of a module with a bundle-valued port: every element gets the same bundle (broadcast); its scalar port is
+    fed with the broadcast or the per-element width."""
+    from .f4_bundles import BUNDLES, bref
+    from ..refsem import bundle_leaves
+
+    kind, n, w, ib, cw, k = desc
+    exts = dict([probe_ext(1), probe_ext(2), probe_ext(6)])
+    inb = {"name": "InB", "style": "class", "decls": [
+        ("bport", "bp", "B1", False, None), ("port", "c", 1, "none"),
+        ("inst", "tx", ("ext", "P1", {"k": 1}), [("a", bref("bp", "x"))]),
+        ("inst", "ty", ("ext", "P2", {"k": 2}), [("a", bref("bp", "y"))]),
+        ("inst", "tc", ("ext", "P1", {"k": 3}), [("a", sig("c"))])]}
+    cexpr = [sig("s"), rng(sig("t"), 0, n), cat(*[idx(sig("t"), 5 - j) for j in range(n)])][cw]
+    decls = []
+    for nm, ww in [("s", 1), ("v", 2), ("t", 6)]:
+        decls.append(("sig", nm, ww))
+        decls.append(probe("p_" + nm, nm, ww, tag=4))
+    decls += [("binst", "bb", "B1"), ("binst", "b2", "B2"), ("bport", "pbb", "B1", False, None), ("binst", "sb", "B1"),
+              ("inst", "solob", ("mod", "InB"), [("c", sig("s"))] + ([] if BUNDLE_FORMS[ib][0] == "pref" else [("bp", ("b", "sb"))]))]
+    decls.append(("array", "arr", ("mod", "InB"), n, [("bp", BUNDLE_FORMS[ib]), ("c", cexpr)]))
+    top = {"name": "Top", "style": ["proc", "class", "gen"][k % 3], "decls": decls}
+    return "F5/bundle", {"bundles": BUNDLES, "exts": exts, "modules": {"InB": inb, "Top": top}, "top": "Top"}
+
+
 def design(desc):
+    if desc[0] == "bundle":
+        return design_bundle(desc)
     kind, n, w, ia, ib, k = desc
     m = conn_menu(w, n, 6)
     ea, eb = m[ia], m[ib]
